@@ -1,2 +1,138 @@
-(* C17 — Compile-time evaluation follows IEEE 1800 operator semantics. (theorems added below) *)
-From VV Require Import Value.SpecGlue.
+(* C17 — Compile-time evaluation follows IEEE 1800 operator semantics.
+   Statements only; models in Value/ValueModel.v (transcription of value.rs / op.rs),
+   reference in BV/Ops1800.v, calling convention in Value/SpecGlue.v, proofs in Value/ValueProofs*.v
+   and Value/ValueTheorems.v.
+
+   agrees r sp w  :=  exists v, r = Some v /\ sp = Some (payload, mask of v) /\ width v = w /\ v fits w.
+   (r = Some _ also says: no panic / unreachable arm in the model.) *)
+From VV Require Import BV.Ops1800 Value.ValueModel Value.SpecGlue Value.ValueProofs
+  Value.ValueProofsBits Value.ValueProofsCmp Value.ValueProofsRed Value.ValueProofsDiv Value.ValueProofsPow Value.ValueTheorems.
+Open Scope N_scope.
+
+(* Every unary operator of eval_value_unary (+ - ~ & ~& | ~| ^ ~^ !), both representations,
+   every width: the model's result is the IEEE 1800 value. *)
+Theorem C17_unary_follows_ieee1800 :
+  forall o x w s, pre_unary o x w -> agrees (eval_unary o x w s) (spec_unary o x w s) w.
+Proof. exact eval_unary_spec. Qed.
+
+(* Every binary operator of eval_value_binary: + - * / % ** & | ^ ~^ << <<< >> >>> < <= > >= == !=
+   ==? !=? && ||, both representations (incl. mixed U64/BigUint operands), every width, signed and
+   unsigned, 2- and 4-state operands.  == != && ** hold outside their known deviation classes
+   (hypotheses eq_known_dev / land_known_dev / pow_*_dev = false inside pre_binary; each class is
+   refuted below), ** additionally with the context signedness = that of its left operand. *)
+Theorem C17_binary_follows_ieee1800 :
+  forall o x y w s, pre_binary o x y w s -> agrees (eval_binary o x y w s) (spec_binary o x y w s) w.
+Proof. exact eval_binary_spec. Qed.
+
+(* The preconditions are met by every pair of canonical values (U64 iff width <= 64, payload and
+   mask below 2^width) whose widths do not exceed the context width. *)
+Theorem C17_canonical_operands_admissible :
+  forall o x y w s, wfv x -> wfv y -> wd x <= w -> wd y <= w -> w < 2 ^ 32 ->
+  match o with
+  | As | BitNand | BitNor | BitNot | LogicNot => True
+  | Eq | Ne => eq_known_dev x y = false -> pre_binary o x y w s
+  | LogicAnd => land_known_dev x y = false -> pre_binary o x y w s
+  | Pow => s = sg x -> pow_xz_sign_dev y = false -> pow_big_exp_dev y = false -> pre_binary o x y w s
+  | _ => pre_binary o x y w s
+  end.
+Proof. exact pre_binary_canonical. Qed.
+
+Theorem C17_canonical_operand_admissible_unary :
+  forall o x w, wfv x -> wd x <= w ->
+  match o with
+  | Add | Sub | BitNot | BitAnd | BitNand | BitOr | BitNor | BitXor | BitXnor | LogicNot => pre_unary o x w
+  | _ => True
+  end.
+Proof. exact pre_unary_canonical. Qed.
+
+(* The U64 and the BigUint code paths agree on every value they can both hold. *)
+Theorem C17_representations_agree :
+  forall o x y x' y' w s,
+  pre_binary o x y w s -> pre_binary o x' y' w s -> num x = num x' -> num y = num y' ->
+  exists v v', eval_binary o x y w s = Some v /\ eval_binary o x' y' w s = Some v' /\
+               pl v = pl v' /\ mk v = mk v' /\ wd v = wd v'.
+Proof. exact repr_agree_binary. Qed.
+
+Theorem C17_representations_agree_unary :
+  forall o x x' w s,
+  pre_unary o x w -> pre_unary o x' w -> num x = num x' ->
+  exists v v', eval_unary o x w s = Some v /\ eval_unary o x' w s = Some v' /\
+               pl v = pl v' /\ mk v = mk v' /\ wd v = wd v'.
+Proof. exact repr_agree_unary. Qed.
+
+(* No panic (checked u64 arithmetic, width-1 underflow, unreachable!()) on admissible operands. *)
+Theorem C17_no_panic_binary :
+  forall o x y w s, pre_binary o x y w s -> eval_binary o x y w s <> None.
+Proof. exact eval_binary_no_panic. Qed.
+Theorem C17_no_panic_unary :
+  forall o x w s, pre_unary o x w -> eval_unary o x w s <> None.
+Proof. exact eval_unary_no_panic. Qed.
+
+(* The oracle evaluated by the check (amounts clipped so that vm_compute terminates) is the
+   reference itself. *)
+Theorem C17_executable_oracle_is_reference :
+  forall o x y w s, spec_binary_exec o x y w s = spec_binary o x y w s.
+Proof. exact spec_binary_exec_eq. Qed.
+
+(* Known deviations of the unchanged code (KNOWN_FINDINGS.txt), as facts about the model. *)
+Theorem C17_eq_refuted :
+  exists x y, wfv x /\ wfv y /\ eq_known_dev x y = true /\
+    option_map vecv (eval_binary Eq x y 1 false) = Some (mkVec 0 0) /\
+    spec_binary Eq x y 1 false = Some (mkVec 0 1).
+Proof. exact eval_eq_refuted. Qed.
+Theorem C17_ne_refuted :
+  exists x y, wfv x /\ wfv y /\ eq_known_dev x y = true /\
+    option_map vecv (eval_binary Ne x y 1 false) = Some (mkVec 1 0) /\
+    spec_binary Ne x y 1 false = Some (mkVec 0 1).
+Proof. exact eval_ne_refuted. Qed.
+Theorem C17_logicand_refuted :
+  exists x y, wfv x /\ wfv y /\ land_known_dev x y = true /\
+    option_map vecv (eval_binary LogicAnd x y 1 false) = Some (mkVec 0 1) /\
+    spec_binary LogicAnd x y 1 false = Some (mkVec 0 0).
+Proof. exact eval_logicand_refuted. Qed.
+Theorem C17_pow_xz_exponent_refuted :
+  exists x y, wfv x /\ wfv y /\ pow_xz_sign_dev y = true /\
+    option_map vecv (eval_binary Pow x y 1 false) = Some (mkVec 1 0) /\
+    spec_binary Pow x y 1 false = Some (mkVec 0 1).
+Proof. exact eval_pow_refuted. Qed.
+
+Theorem C17_pow_big_exponent_refuted :
+  let x := mkV RB 3 0 100 false in let y := mkV RB (2 ^ 64) 0 65 false in
+  pow_big_exp_dev y = true /\
+  option_map vecv (eval_binary Pow x y 100 false) = Some (mkVec 82794860378804020239867226795 0) /\
+  spec_binary Pow x y 100 false = Some (mkVec 248384581136412060719601680385 0).
+Proof. exact eval_pow_big_exponent_refuted. Qed.
+
+(* Non-vacuity of the hypotheses. *)
+Example C17_ex_canonical_u64 : wfv (mkV RU 200 0 8 false) /\ wfv (mkV RU 5 2 3 true).
+Proof. exact ex_canonical_u64. Qed.
+Example C17_ex_canonical_big : wfv (mkV RB (2 ^ 99 + 1) (2 ^ 64) 100 true).
+Proof. exact ex_canonical_big. Qed.
+Example C17_ex_mixed_operands :
+  pre_binary Add (mkV RU 5 2 3 true) (mkV RB (2 ^ 99 + 1) (2 ^ 64) 100 true) 100 true.
+Proof. exact ex_pre_add_mixed. Qed.
+Example C17_ex_both_representations :
+  pre_binary Mul (mkV RU 200 0 8 false) (mkV RU 77 0 8 false) 8 false /\
+  pre_binary Mul (as_big (mkV RU 200 0 8 false)) (as_big (mkV RU 77 0 8 false)) 8 false.
+Proof. exact ex_pre_both_reps. Qed.
+Example C17_ex_pow_admissible : pre_binary Pow (mkV RU 253 0 8 true) (mkV RU 5 0 4 false) 8 true.
+Proof. exact ex_pre_pow. Qed.
+Example C17_ex_outside_deviation_classes :
+  eq_known_dev (mkV RU 2 1 2 false) (mkV RU 1 0 2 false) = false /\
+  land_known_dev (mkV RU 2 1 2 false) (mkV RU 1 0 2 false) = false.
+Proof. exact ex_not_in_dev_class. Qed.
+
+Print Assumptions C17_unary_follows_ieee1800.
+Print Assumptions C17_binary_follows_ieee1800.
+Print Assumptions C17_canonical_operands_admissible.
+Print Assumptions C17_canonical_operand_admissible_unary.
+Print Assumptions C17_representations_agree.
+Print Assumptions C17_representations_agree_unary.
+Print Assumptions C17_no_panic_binary.
+Print Assumptions C17_no_panic_unary.
+Print Assumptions C17_executable_oracle_is_reference.
+Print Assumptions C17_eq_refuted.
+Print Assumptions C17_ne_refuted.
+Print Assumptions C17_logicand_refuted.
+Print Assumptions C17_pow_xz_exponent_refuted.
+Print Assumptions C17_pow_big_exponent_refuted.
